@@ -363,3 +363,10 @@ def check(P: Project, R: Report) -> None:
                  f"`{ast.unparse(n_)[:70]}` stores something built from the options under `{ast.unparse(key_)[:40]}` (defined by `{'; '.join(ast.unparse(v_)[:50] for v_ in (glv.get(key_.id, []) if isinstance(key_, ast.Name) else []) if v_ is not None) or ast.unparse(key_)[:50]}`), which does not include the option values: after one call with indent=2 every later call that passes the same keyword names — indent=None, the compact form — is encoded with that indenting encoder",
                  sample=f"R5 {g.qual}: {tbl_}[…] keyed by option items")
     R.ob("R5", "the codec keeps nothing between calls that is keyed by less than the options it was built from", True, mod.rel, f"{len(tables)} module-level container(s), {n_stores} option-dependent store(s)", sample=f"R5 module-level containers: {sorted(tables) or 'none'}")
+
+    # ------------------------------------------------------------------ R6: what the frame writer sends is one line
+    from ..lift import lift
+
+    lift(P, R, "C06", {"R2"}, "R6",
+         "every encoded message is exactly one NDJSON frame: the text the stdio writer frames is the output of a compact serialiser, or a caller's string on a path that excluded raw CR and LF or re-encoded it (the line-safety obligations of C06-R2, read here for 'compact encodings never contain a raw line break')",
+         "stdio writer: ", min_n=2, suffix=" — a raw CR or LF inside the frame is a line break to the reader on the other side: one message arrives as several fragments, none of which is JSON")
